@@ -209,6 +209,8 @@ class EasyID3(DictMixin, Metadata):
         return self.__id3.size
 
     def __getitem__(self, key):
+        if not isinstance(key, str):
+            raise EasyID3KeyError("%r is not a valid key" % (key,))
         func = dict_match(self.Get, key.lower(), self.GetFallback)
         if func is not None:
             return func(self.__id3, key)
@@ -218,6 +220,8 @@ class EasyID3(DictMixin, Metadata):
     def __setitem__(self, key, value):
         if isinstance(value, str):
             value = [value]
+        if not isinstance(key, str):
+            raise EasyID3KeyError("%r is not a valid key" % (key,))
         func = dict_match(self.Set, key.lower(), self.SetFallback)
         if func is not None:
             return func(self.__id3, key, value)
@@ -225,6 +229,8 @@ class EasyID3(DictMixin, Metadata):
             raise EasyID3KeyError("%r is not a valid key" % key)
 
     def __delitem__(self, key):
+        if not isinstance(key, str):
+            raise EasyID3KeyError("%r is not a valid key" % (key,))
         func = dict_match(self.Delete, key.lower(), self.DeleteFallback)
         if func is not None:
             return func(self.__id3, key)
